@@ -491,6 +491,27 @@ Section RKF.
   Lemma rg_raise : forall f x g out, CInv frepr o wss f0 f -> grane (Raise x) f g out -> RG g out.
   Proof. intros f x g out Hc H. apply grane_raise in H. destruct H as [-> ->]. split; auto. discriminate. Qed.
 
+  (* the outer handler of _save: one more read of the state point file, then an exception in every case *)
+  Definition oexit_p (x : perr) : prog unit :=
+    Do (CRead fname) (fun r =>
+      match r with
+      | FErr ENOENT => ret_res (inr x)
+      | FErr e3 => ret_res (inr (POs e3))
+      | FOk (RData d) => match c_json d with Some _ => ret_res (inr x) | None => ret_res (inr (PExn EValueError)) end
+      | FOk _ => ret_res (inr (PExn EOther))
+      end).
+
+  Lemma rg_oexit : forall f x g out, CInv frepr o wss f0 f -> grane (oexit_p x) f g out -> RG g out.
+  Proof.
+    intros f x g out Hc H. unfold oexit_p in H. apply grane_do in H. destruct H as [H|[e [He H]]].
+    - unfold exec_res in H. cbn [exec] in H.
+      destruct (get f fname) as [[d|]|]; cbn [fst snd] in H.
+      + destruct (c_json d); apply (rg_raise f _ g out Hc H).
+      + apply (rg_raise f _ g out Hc H).
+      + apply (rg_raise f _ g out Hc H).
+    - destruct e; try contradiction; apply (rg_raise f _ g out Hc H).
+  Qed.
+
   Theorem rekey_fault_all : forall atomic g out, grane (op_prog frepr atomic o) f0 g out -> RG g out.
   Proof.
     intros atomic g out H.
@@ -510,7 +531,7 @@ Section RKF.
     assert (En : str_eqb old new = false) by (apply str_eqb_neq; exact Hne).
     rewrite En in H. cbv zeta in H. fold odir ndir fname bak in H.
     apply grane_do in H. destruct H as [H|[e [He H]]].
-    2: { destruct e; try contradiction; apply (rg_raise f0 _ g out Hpre H). }
+    2: { destruct e; try contradiction; apply (rg_oexit f0 _ g out Hpre H). }
     assert (Hfb : fname <> bak).
     { apply path_eqb_neq. unfold fname, bak. rewrite path_eqb_snoc. reflexivity. }
     assert (Hpb : get f0 (parent bak) = Some Dir) by (unfold bak; rewrite parent_snoc; exact Hod0).
@@ -520,7 +541,7 @@ Section RKF.
     { assert (E1 : exec_res f0 (CRename fname bak) = (f0, FErr EISDIR)).
       { unfold exec_res. cbn [exec]. unfold rename. rewrite G, Hpb, Gb.
         apply path_eqb_neq in Hfb. rewrite Hfb. reflexivity. }
-      rewrite E1 in H. cbn [fst snd] in H. apply (rg_raise f0 _ g out Hpre H). }
+      rewrite E1 in H. cbn [fst snd] in H. apply (rg_oexit f0 _ g out Hpre H). }
     destruct (rename_file_ok f0 fname bak c G Hpb Hfb Gb) as [f1 [E1 S1]].
     rewrite E1 in H. cbn [fst snd] in H.
     change (st1 f0 w1 w2 wr old c f1) in S1.
@@ -530,21 +551,21 @@ Section RKF.
               grane (Do (CRename bak fname) (fun r2 =>
                  match r2 with
                  | FErr ENOENT => kk
-                 | FErr e2 => ret_res (inr (POs e2))
+                 | FErr e2 => oexit_p (POs e2)
                  | FOk _ =>
                      Do (CRead fname) (fun r3 =>
                        let continue_ : prog unit :=
                          if dest_exists_e e then ret_res (inr (PExn EDestinationExists))
-                         else match e with ENOENT => kk | _ => ret_res (inr (POs e)) end in
+                         else match e with ENOENT => kk | _ => oexit_p (POs e) end in
                        match r3 with
                        | FErr ENOENT => continue_
-                       | FErr e3 => ret_res (inr (POs e3))
+                       | FErr e3 => oexit_p (POs e3)
                        | FOk (RData d) => match c_json d with Some _ => continue_ | None => ret_res (inr (PExn EValueError)) end
                        | FOk _ => ret_res (inr (PExn EOther))
                        end)
                  end)) f1 g out -> RG g out).
     { intros e Hene kk g1 out1 Hr. apply grane_do in Hr. destruct Hr as [Hr|[e2 [He2 Hr]]].
-      2: { destruct e2; try contradiction; apply (rg_raise f1 _ g1 out1 Hc1 Hr). }
+      2: { destruct e2; try contradiction; apply (rg_oexit f1 _ g1 out1 Hc1 Hr). }
       assert (P1 : get f1 bak = Some (File c)) by (rewrite S1, path_eqb_refl; reflexivity).
       assert (P2 : get f1 (parent fname) = Some Dir) by (unfold fname; rewrite parent_snoc; apply (st1_odir f0 w1 w2 wr old c Hod0 f1 S1)).
       assert (Hfn1 : get f1 fname = None) by (apply (st1_fname f0 w1 w2 wr old c f1 S1)).
@@ -556,11 +577,12 @@ Section RKF.
         rewrite S1. fold ws odir fname bak. rewrite Q2, Q1. reflexivity. }
       pose proof (C3 f3 S3) as Hc3.
       apply grane_do in Hr. destruct Hr as [Hr|[e3 [He3 Hr]]].
-      2: { destruct e3; try contradiction; apply (rg_raise f3 _ g1 out1 Hc3 Hr). }
+      2: { destruct e3; try contradiction; apply (rg_oexit f3 _ g1 out1 Hc3 Hr). }
       assert (E5 : exec_res f3 (CRead fname) = (f3, FOk (RData c))).
       { unfold exec_res. cbn [exec]. rewrite S3. fold ws odir fname. rewrite path_eqb_refl. reflexivity. }
       rewrite E5 in Hr. cbn [fst snd] in Hr. rewrite J in Hr. cbv zeta in Hr.
-      destruct e; try contradiction; cbn in Hr; apply (rg_raise f3 _ g1 out1 Hc3 Hr). }
+      destruct e; try contradiction; cbv beta iota delta [dest_exists_e] in Hr;
+        first [apply (rg_raise f3 _ g1 out1 Hc3 Hr)|apply (rg_oexit f3 _ g1 out1 Hc3 Hr)]. }
     apply grane_do in H. destruct H as [H|[e [He H]]].
     2: { eapply (Hroll e He). exact H. }
     pose proof (rk_rename_dir frepr wss f0 w1 w2 wr old nsp HW Hws Hne c f1 Hod0 S1) as Hren.
@@ -675,17 +697,28 @@ Section RKH.
   Definition rk_obs (atomic : bool) : prog (hst * ores) :=
     op1_h frepr atomic (KRekey ws old nsp) (fun h r => Ret (h, r)).
 
-  (* A re-key whose DIRECTORY rename fails (injected errno other than ENOENT, at call 2: after the read and
-     the parking of the state point file): the caller sees an exception, the tree is the pre-state (st3: only a
-     stale backup file is gone), and the handle still has the old id and — re-read from the restored file —
-     exactly the on-disk state point. *)
-  Theorem rekey_dir_fault_restores_handle : forall atomic e, e <> ENOENT ->
-    exists f3 h x v0,
-      run_fault (single 2 e) 0 (rk_obs atomic) f0 = (f3, inl (h, inr x)) /\
-      st3 f0 w1 w2 wr old (match get f0 fname with Some (File c) => c | _ => empty_content end) f3 /\
-      hs_ws h = ws /\ hs_id h = old /\ hs_sp h = Some v0 /\ sp_value f0 ws old = Some v0 /\ sp_value f3 ws old = Some v0.
+  (* A re-key REJECTED by a handled I/O error (8529336).  One injected error, any errno but ENOENT (which
+     signac reads as "not there"), at the initial load (0), at the parking of the state point file (1), at the
+     directory rename (2); with an occupied destination — the directory rename fails by itself — at ANY call
+     (3 = the rollback, 4 = the restoring read, 5 = the outer handler's read, later = no injection).
+     The caller sees an exception, the handle keeps the old id, and whenever the state point file is in place
+     afterwards it still holds the pre-state value and the handle either has not loaded a state point (it
+     loads the file on the next access) or holds exactly that value: a later change through the same handle
+     cannot carry the rejected one.  (Free destination and a call after the directory rename: the change is
+     APPLIED, the handle has the new id — fault_safe_rekey.) *)
+  Ltac fin Q0 Q3 Q1 :=
+    eexists; eexists; eexists; split; [reflexivity|]; cbn [hs_ws hs_id hs_sp];
+    split; [reflexivity|]; split; [reflexivity|]; first [apply Q0|apply Q3|apply Q1]; auto.
+
+  Theorem rekey_fault_restores_handle : forall atomic k e, e <> ENOENT ->
+    k <= 2 \/ occupied frepr f0 w1 w2 wr nsp = true ->
+    exists f h x,
+      run_fault (single k e) 0 (rk_obs atomic) f0 = (f, inl (h, inr x)) /\
+      hs_ws h = ws /\ hs_id h = old /\
+      forall v, sp_value f ws old = Some v ->
+        sp_value f0 ws old = Some v /\ (hs_sp h = None \/ hs_sp h = Some v).
   Proof.
-    intros atomic e He.
+    intros atomic k e He Hk.
     destruct (rk_src frepr wss f0 w1 w2 wr old HW Hws Hold) as [Hod0 [c [v0 [G [J E]]]]]. fold ws odir fname in Hod0, G.
     pose proof (winv_job_nn frepr wss f0 ws old HW Hws Hold c v0 G J) as Hnn.
     assert (Hfb : fname <> bak).
@@ -698,46 +731,103 @@ Section RKH.
     assert (Hfn1 : get f1 fname = None) by (apply (st1_fname f0 w1 w2 wr old c f1 S1)).
     assert (P3 : get f1 fname <> Some Dir) by (rewrite Hfn1; discriminate).
     destruct (rename_file_ok f1 bak fname c P1 P2 (not_eq_sym Hfb) P3) as [f3 [E3 H3]].
-    assert (S3 : st3 f0 w1 w2 wr old c f3).
-    { intro q. fold ws odir fname bak. rewrite H3. destruct (path_eqb q fname) eqn:Q1; auto. destruct (path_eqb q bak) eqn:Q2; auto.
-      rewrite S1. fold ws odir fname bak. rewrite Q2, Q1. reflexivity. }
     assert (G3 : get f3 fname = Some (File c)) by (rewrite H3, path_eqb_refl; reflexivity).
-    exists f3, {| hs_ws := ws; hs_id := old; hs_sp := Some v0 |}, (if dest_exists_e e then PExn EDestinationExists else POs e), v0.
-    split.
-    - unfold rk_obs, op1_h, with_sp, sp_load.
-      replace (ws ++ [old; SPF]) with fname by (unfold fname, odir; rewrite <- app_assoc; reflexivity).
+    assert (E0 : exec_res f0 (CRead fname) = (f0, FOk (RData c))) by (unfold exec_res; cbn [exec]; rewrite G; reflexivity).
+    assert (E1n : exec_res f1 (CRead fname) = (f1, FErr ENOENT)) by (unfold exec_res; cbn [exec]; rewrite Hfn1; reflexivity).
+    assert (E5 : exec_res f3 (CRead fname) = (f3, FOk (RData c))) by (unfold exec_res; cbn [exec]; rewrite G3; reflexivity).
+    assert (En : str_eqb old new = false) by (apply str_eqb_neq; exact Hne).
+    assert (V0 : sp_value f0 ws old = Some v0) by (rewrite sp_value_dir; fold ws odir fname; rewrite G; exact J).
+    assert (V3 : sp_value f3 ws old = Some v0) by (rewrite sp_value_dir; fold ws odir fname; rewrite G3; exact J).
+    assert (V1 : sp_value f1 ws old = None) by (rewrite sp_value_dir; fold ws odir fname; rewrite Hfn1; reflexivity).
+    pose proof (rk_rename_dir frepr wss f0 w1 w2 wr old nsp HW Hws Hne c f1 Hod0 S1) as Hren.
+    unfold rk_obs, op1_h, with_sp, sp_load.
+    replace (ws ++ [old; SPF]) with fname by (unfold fname, odir; rewrite <- app_assoc; reflexivity).
+    (* conclusions for the three final states *)
+    assert (Q0 : forall d, d = None \/ d = Some v0 -> forall v, sp_value f0 ws old = Some v -> sp_value f0 ws old = Some v /\ (d = None \/ d = Some v)).
+    { intros d Hd v Hv. split; auto. rewrite V0 in Hv. inversion Hv; subst. exact Hd. }
+    assert (Q3 : forall d, d = None \/ d = Some v0 -> forall v, sp_value f3 ws old = Some v -> sp_value f0 ws old = Some v /\ (d = None \/ d = Some v)).
+    { intros d Hd v Hv. rewrite V3 in Hv. inversion Hv; subst. split; auto. }
+    assert (Q1 : forall d : option json, forall v, sp_value f1 ws old = Some v -> sp_value f0 ws old = Some v /\ (d = None \/ d = Some v)).
+    { intros d v Hv. rewrite V1 in Hv. discriminate. }
+    destruct k as [|[|[|k3]]].
+    - (* 0: the load of the state point *)
       rewrite run_fault_do. cbn [single Nat.eqb].
-      assert (E0 : exec_res f0 (CRead fname) = (f0, FOk (RData c))) by (unfold exec_res; cbn [exec]; rewrite G; reflexivity).
+      destruct e; try contradiction;
+        (fin Q0 Q3 Q1).
+    - (* 1: parking the state point file fails; the outer handler re-reads the file *)
+      rewrite run_fault_do. cbn [single Nat.eqb].
       rewrite E0, J, Hnn, E, str_eqb_refl.
-      unfold rekey_h. fold new.
-      assert (En : str_eqb old new = false) by (apply str_eqb_neq; exact Hne).
-      rewrite En. cbv zeta. fold odir ndir fname bak.
+      unfold rekey_h. fold new. rewrite En. cbv zeta. fold odir ndir fname bak.
+      rewrite run_fault_do. cbn [single Nat.eqb].
+      destruct e; try contradiction;
+        (rewrite run_fault_do; cbn [single Nat.eqb]; rewrite E0, J, Hnn; cbn [fst snd];
+         fin Q0 Q3 Q1).
+    - (* 2: the directory rename fails; rollback, restoring read, (outer handler: one more read) *)
+      rewrite run_fault_do. cbn [single Nat.eqb].
+      rewrite E0, J, Hnn, E, str_eqb_refl.
+      unfold rekey_h. fold new. rewrite En. cbv zeta. fold odir ndir fname bak.
       rewrite run_fault_do. cbn [single Nat.eqb]. rewrite E1.
       rewrite run_fault_do. cbn [single Nat.eqb].
       rewrite run_fault_do. cbn [single Nat.eqb]. rewrite E3.
+      rewrite run_fault_do. cbn [single Nat.eqb]. rewrite E5, J, Hnn. cbn [fst snd].
+      destruct e; try contradiction; cbv beta iota delta [dest_exists_e];
+        try (rewrite run_fault_do; cbn [single Nat.eqb]; rewrite E5, J, Hnn; cbn [fst snd]);
+        (fin Q0 Q3 Q1).
+    - (* later calls: only with an occupied destination *)
+      assert (Ho : occupied frepr f0 w1 w2 wr nsp = true) by (destruct Hk as [Hk|Hk]; [lia|exact Hk]).
+      rewrite Ho in Hren. destruct Hren as [e' [Er Hee]].
+      assert (E2 : exec_res f1 (CRename odir ndir) = (f1, FErr e')) by (unfold exec_res; cbn [exec]; unfold odir, ndir, new, ws; rewrite Er; reflexivity).
       rewrite run_fault_do. cbn [single Nat.eqb].
-      assert (E5 : exec_res f3 (CRead fname) = (f3, FOk (RData c))) by (unfold exec_res; cbn [exec]; rewrite G3; reflexivity).
-      rewrite E5, J. cbn [fst snd].
-      destruct e; try contradiction; reflexivity.
-    - rewrite G. split; [exact S3|]. repeat split; auto.
-      + rewrite sp_value_dir. fold ws odir fname. rewrite G. exact J.
-      + rewrite sp_value_dir. fold ws odir fname. rewrite G3. exact J.
+      rewrite E0, J, Hnn, E, str_eqb_refl.
+      unfold rekey_h. fold new. rewrite En. cbv zeta. fold odir ndir fname bak.
+      rewrite run_fault_do. cbn [single Nat.eqb]. rewrite E1.
+      rewrite run_fault_do. cbn [single Nat.eqb]. rewrite E2. cbn [fst snd].
+      destruct k3 as [|[|[|k6]]].
+      + (* 3: the rollback fails: the file stays parked, nothing to restore from *)
+        destruct Hee as [-> | ->];
+        (rewrite run_fault_do; cbn [single Nat.eqb];
+         destruct e; try contradiction;
+         (rewrite run_fault_do; cbn [single Nat.eqb]; rewrite E1n; cbn [fst snd];
+          fin Q0 Q3 Q1)).
+      + (* 4: the restoring read fails: the outer handler's read restores *)
+        destruct Hee as [-> | ->];
+        (rewrite run_fault_do; cbn [single Nat.eqb]; rewrite E3;
+         rewrite run_fault_do; cbn [single Nat.eqb];
+         destruct e; try contradiction;
+         (rewrite run_fault_do; cbn [single Nat.eqb]; rewrite E5, J, Hnn; cbn [fst snd];
+          fin Q0 Q3 Q1)).
+      + (* 5: the outer handler's read fails (non-collision errno only): already restored *)
+        destruct Hee as [-> | ->];
+        (rewrite run_fault_do; cbn [single Nat.eqb]; rewrite E3;
+         rewrite run_fault_do; cbn [single Nat.eqb]; rewrite E5, J, Hnn; cbn [fst snd];
+         cbv beta iota delta [dest_exists_e];
+         try (rewrite run_fault_do; cbn [single Nat.eqb]; destruct e; try contradiction);
+         (fin Q0 Q3 Q1)).
+      + (* no injection *)
+        destruct Hee as [-> | ->];
+        (rewrite run_fault_do; cbn [single Nat.eqb]; rewrite E3;
+         rewrite run_fault_do; cbn [single Nat.eqb]; rewrite E5, J, Hnn; cbn [fst snd];
+         cbv beta iota delta [dest_exists_e];
+         try (rewrite run_fault_do; cbn [single Nat.eqb]; rewrite E5, J, Hnn; cbn [fst snd]);
+         (fin Q0 Q3 Q1)).
   Qed.
 End RKH.
 
-(* the exit through the FIRST rename does not restore the handle (known finding 4): concrete witness *)
+(* the former failing input of known finding 4 (fixed: 8529336), kept as a regression witness: EIO at the
+   parking of the state point file, then sp["q"] = 9 through the same handle *)
 Definition cw_nsp : json := JObj [([97%N], JInt 5)].
 Definition cw_fo : fop := FSet [113%N] (JInt 9).
 Definition cw_forged : json := JObj [([97%N], JInt 5); ([113%N], JInt 9)].
+Definition cw_intended : json := JObj [([97%N], JInt 1); ([113%N], JInt 9)].
 
-Lemma rekey_first_rename_witness :
+Lemma rekey_first_rename_repaired_witness :
   (let '(f, out) := run_fault (single 1 EIO) 0 (op1_h cw_repr true (KRekey cw_a cw_id cw_nsp) (fun h r => Ret (h, r))) cw_f0 in
-   (exists h x, out = inl (h, inr x) /\ hs_id h = cw_id /\ hs_sp h = Some cw_nsp)      (* exception; rejected value in memory *)
+   (exists h x, out = inl (h, inr x) /\ hs_id h = cw_id /\ hs_sp h = Some cw_sp)       (* exception; memory = disk *)
    /\ sp_value f cw_a cw_id = Some cw_sp                                                (* the disk holds the pre-state *)
    /\ forallb (fun e => node_same (get cw_f0 (fst e)) (get f (fst e))) (cw_f0 ++ f) = true)
   /\
   (let '(f2, out2) := run_fault (single 1 EIO) 0 (follow_prog cw_repr true (KRekey cw_a cw_id cw_nsp) cw_fo) cw_f0 in
-   (exists x, out2 = inl (inr x, inl tt))                                               (* the follow-up succeeds ...          *)
-   /\ validates cw_repr f2 cw_a (calc_id cw_repr cw_forged) = true                      (* ... under a state point never intended *)
-   /\ exists_ f2 (cw_a ++ [calc_id cw_repr (JObj [([97%N], JInt 1); ([113%N], JInt 9)])]) = false).
+   (exists x, out2 = inl (inr x, inl tt))                                               (* the follow-up succeeds ...   *)
+   /\ validates cw_repr f2 cw_a (calc_id cw_repr cw_intended) = true                    (* ... under the intended state point *)
+   /\ exists_ f2 (cw_a ++ [calc_id cw_repr cw_forged]) = false).                        (* the rejected value is gone   *)
 Proof. vm_compute. repeat split; eauto. Qed.
